@@ -1478,14 +1478,11 @@ namespace igris
 
             invalidate();
 
-            m_size = other.m_size;
-            m_data = m_alloc.allocate(m_size);
-            m_capacity = m_size;
-            for (auto ip = other.m_data, op = m_data;
-                 ip != other.m_data + other.m_size;
-                 ip++, op++)
+            reserve(other.m_size);
+            for (auto ip = other.m_data; ip != other.m_data + other.m_size;
+                 ip++)
             {
-                igris::constructor(op, *ip);
+                push_back(*ip);
             }
 
             return *this;
